@@ -385,6 +385,52 @@ Definition div_m (t : ity) (x y : Z) : option (Z * Z) :=
   if y =? 0 then None
   else obind (chk t (Z.quot x y)) (fun q => Some (q, Z.rem x y)).
 
-(* detail::abs_impl<T>: if (n >= 0) return n; return n * T(-1) *)
+(* detail::abs_impl<T> (after fix a3c791a): if (n == T(0)) return T(0); if (n >= T(0)) return n; return n * T(-1) *)
 Definition abs_m (t : ity) (n : Z) : option Z :=
-  if n >=? 0 then Some n else chk t (n * -1).
+  if n =? 0 then Some 0 else if n >=? 0 then Some n else chk t (n * -1).
+
+(** * Review round (second engineer): the paths of the front ends the model did not have *)
+
+(* A possibly-null pointer argument: [None] = nullptr, [Some l] = pointer into an allocation (as above). *)
+
+(* etl::strcpy / etl::wcscpy: TETL_PRECONDITION(dest != nullptr); TETL_PRECONDITION(src != nullptr); detail::strcpy *)
+Definition strcpy_front_m (d s : option (list Z)) : res (list Z) :=
+  match d with
+  | None => Contract
+  | Some d' => match s with None => Contract | Some s' => strcpy_m d' s' end
+  end.
+
+(* etl::strncpy / etl::wcsncpy: the same two preconditions, then detail::strncpy *)
+Definition strncpy_front_m (d s : option (list Z)) (n : nat) : res (list Z) :=
+  match d with
+  | None => Contract
+  | Some d' => match s with None => Contract | Some s' => strncpy_m d' s' n end
+  end.
+
+(* etl::strchr (both overloads; NOT wcschr): TETL_PRECONDITION(str != nullptr); detail::strchr<char> *)
+Definition strchr_front_m (s : option (list Z)) (ch : Z) : res (option nat) :=
+  match s with None => Contract | Some s' => strchr_m Narrow s' ch end.
+
+(* detail::strrchr (strrchr and wcsrchr, all four overloads): if (str == nullptr) return nullptr; ... *)
+Definition strrchr_front_m (ct : cty) (s : option (list Z)) (ch : Z) : res (option nat) :=
+  match s with None => Ok None | Some s' => strrchr_m ct s' ch end.
+
+(* detail::memmove between two DIFFERENT allocations [d] (destination region) and [s] (source region): the test
+   `ps < pd` compares unrelated pointers, so its outcome [below] is whatever the addresses happen to be; the two
+   loops are the same as in [memmove_m], on two buffers.  (Forward loop = the loop of [memcpy_m].) *)
+Fixpoint mm2_bwd (d s : list Z) (n : nat) {struct n} : res (list Z) :=
+  match n with
+  | O => Ok d
+  | S n' => rbind (rd s n') (fun v => rbind (wr d n' v) (fun d' => mm2_bwd d' s n'))
+  end.
+
+Definition memmove2_m (below : bool) (d s : list Z) (n : nat) : res (list Z) :=
+  if below then mm2_bwd d s n else memcpy_m d s n.
+
+(* etl::memmove (narrow front end only; wmemmove has no check): the two null-pointer preconditions come first,
+   even for a zero count *)
+Definition memmove_front_m (below : bool) (d s : option (list Z)) (n : nat) : res (list Z) :=
+  match d with
+  | None => Contract
+  | Some d' => match s with None => Contract | Some s' => memmove2_m below d' s' n end
+  end.
